@@ -623,7 +623,19 @@ func runC15Pat(c *Ctx) {
 			}
 		}
 	})
+	// ... and says yes iff some pattern matches: every return is true exactly after a MatchString on the message that came
+	// out true, and the loop over the patterns is not left before a match
+	anyWhy := ""
 	if n == 1 {
+		for i, q := range m.Params {
+			if nm := namedOf(q.Type()); nm != nil && nm.Obj().Name() == "Error" {
+				anyWhy = returnsSomePatternMatched(m, i)
+			}
+		}
+	}
+	if n == 1 && anyWhy != "" {
+		c.bad("(IgnorePatterns).Match|matches the message", m.Pos(), "the verdict is not `some pattern matches the message`: "+anyWhy)
+	} else if n == 1 {
 		c.ok("(IgnorePatterns).Match|matches the message", m.Pos(), "each pattern is matched against Error.Message")
 	} else {
 		c.bad("(IgnorePatterns).Match|matches the message", m.Pos(), "patterns are not matched one by one against the diagnostic's message")
